@@ -30,6 +30,8 @@ def normalise(o, idx, haslog=True, chain=False):
         "log": [{"h": x["h"], "n": x["n"], "a": list(x["a"]), "r": bool(x["r"]), "par": x["par"], "ch": x["ch"]}
                 for x in (o.get("log") or [])],
         "haslog": bool(haslog), "chain": bool(chain),
+        # the fault plan is known for certain (the harness's own replays and histories; not for calls recorded from the test-suite)
+        "sure": bool(o.get("plan")),
     }
     return e
 
